@@ -167,6 +167,11 @@ func (w *reasmWorld) newDgram(r *sim.Rand, near *rsDgram) *rsDgram {
 		if r.Chance(0.3) {
 			n = r.Range(400, 3000)
 		}
+		big := d.proto == codec.ProtoUDP && r.Chance(0.06)
+		if big {
+			n = r.Range(33000, 65000) // its later fragments start beyond byte 32768: the 13-bit offset field is used in full
+			w.Probes["datagrams_beyond_32k"]++
+		}
 		d.payload = make([]byte, n)
 		for i := range d.payload {
 			d.payload[i] = rsByte(w.seed, d.uid, i)
@@ -182,6 +187,9 @@ func (w *reasmWorld) newDgram(r *sim.Rand, near *rsDgram) *rsDgram {
 			k := r.Range(2, 6)
 			if r.Chance(0.2) {
 				k = r.Range(16, 40) // many small fragments: the reassembler's hole list grows past its first allocation
+			}
+			if big {
+				k = r.Range(3, 46) // down to about 1480 bytes a piece
 			}
 			d.cuts = append(d.cuts, rsCut(r, len(d.ip), k))
 		}
